@@ -15,13 +15,17 @@ META = {
                  "Syntax 3 tokenizer oracle on the real outputs",
     "text": "C34_refuted: the full statement norm(css_lex(minify s)) = norm(css_lex s) is false for MinifyCSS (a/**/b{} -> ab{}; "
             "also an escaped space followed by a space, a string broken by a newline: recorded as known findings together with "
-            "unquoted url() bodies and '-- >' forming '-->'). C34_essential_bytes_partial (all inputs not ending inside an unclosed "
-            "string): apart from the spaces and semicolons it writes outside strings, the output is byte for byte the stylesheet "
-            "without comments, whitespace outside strings and semicolons outside strings - nothing else is lost, altered, "
-            "reordered or invented, strings are verbatim. partial: that every space or semicolon that separates tokens is kept "
-            "(token preservation under css_guard: no run-comment-run, no backslash outside strings, no unclosed string) is not "
-            "proved; it is evaluated on the model (vm_compute) and on the real output (CSS Syntax 3 tokenizer) for every "
-            "generated stylesheet and the shipped CSS",
+            "unquoted url() bodies and '-- >' forming '-->'). Proved for ALL inputs not ending inside an unclosed string, by lock-step "
+            "simulation of the byte-exact minifier automaton against specification automata: C34_essential_bytes_partial (apart from "
+            "the spaces and semicolons it writes outside strings, the output is byte for byte the stylesheet without comments, "
+            "outside-string whitespace and semicolons; strings verbatim) and C34_separators_partial (snorm(minify s) = "
+            "snorm(decomment s): the byte-level normal form - every byte, plus a separator exactly between two bytes of which the "
+            "first is not one of {};,>: and the second not one of {};,>, semicolons merged and dropped before '}' - is the same for the "
+            "output and for the comment-stripped input, so no separator between two such bytes and no non-redundant semicolon is ever "
+            "dropped or invented). partial: the last step from the byte-level normal form to CSS tokens (that under css_guard - no "
+            "run-comment-run, no backslash outside strings, no unclosed string - norm(css_lex s) is a function of snorm(decomment s), "
+            "for the input and for the re-lexed output) is not proved; token preservation under css_guard is evaluated on the model "
+            "(vm_compute) and on the real output (CSS Syntax 3 tokenizer) for every generated stylesheet and the shipped CSS",
     "note": "Trusted: Coq kernel; hand-written automaton model of MinifyCSS tied to the code by byte-for-byte correspondence; the "
             "Python CSS Syntax 3 tokenizer used as oracle; css_lex treats unquoted url(...) bodies as ordinary tokens.",
 }
@@ -498,7 +502,7 @@ def run(ck):
                       "string or a semicolon run, and are changed by MinifyCSS")
     ck.assume("C34_essential_bytes_partial: the input does not end inside an unclosed quoted string (the final trimming loop of MinifyCSS would eat the string's trailing spaces)",
               "css_lex treats an unquoted url(...) body as ordinary tokens; CSS Syntax 3 url tokens are handled by the Python oracle only",
-              "token preservation under css_guard is evaluated (model and real code), not proved")
+              "the step from the byte-level normal form (snorm/decomment, proved) to css_lex tokens under css_guard is evaluated (model and real code), not proved")
     ck.trusted("harness/C34/c34_test.go (in-package overlay of internal/util/javascript), props/C34.py generators, CSS Syntax 3 tokenizer oracle and comparison",
                "correspondence and css_guard/preserved_b evaluated by vm_compute in a generated cases file")
     ck.coq_stage(GROUP, theorems=["C34_refuted", "C34_essential_bytes_partial", "C34_separators_partial"])
